@@ -14,6 +14,7 @@ import Flounder.Model.MoveGen
 import Flounder.Spec.Chess
 import Flounder.Spec.Geometry
 import Flounder.Spec.Minimax
+import Flounder.Spec.Budget
 import Flounder.Model.Engine
 import Flounder.Lemmas.C01Interfaces
 
@@ -134,13 +135,19 @@ def linesText (ls : List (List Char)) : String := "|".intercalate (ls.map String
 def outcomeText : Outcome → String
   | .running => "running" | .exited n => s!"exit{n}" | .panicked => "panic" | .outOfFuel => "model-out-of-fuel"
 
+/-- node budget of one reference evaluation (Spec/Budget.lean: `none` when exhausted, never a wrong value). -/
+def SPEC_BUDGET : Nat := 8000
+
+def specVb (G : Game Board) (d : Nat) (b : Board) : Option Int := (Spec.Vb G 2000 d b SPEC_BUDGET).1
+def specQb (G : Game Board) (b : Board) : Option Int := (Spec.Qb G 2000 b SPEC_BUDGET).1
+
 /-- memoised reference minimax value (plain minimax is exponential; the same roots are judged many times). -/
 def specV (st : St) (G : Game Board) (d : Nat) (b : Board) : St × Option Int :=
   let key := s!"{d}:{posKey b}"
   match st.vmemo[key]? with
   | some v => (st, v)
   | none =>
-    let v := Spec.V G 2000 d b
+    let v := specVb G d b
     ({ st with vmemo := st.vmemo.insert key v }, v)
 
 def step (st : St) (line : String) : St × String :=
@@ -348,11 +355,11 @@ def step (st : St) (line : String) : St × String :=
         | (none, _) => ("?", 0)
       -- the property compares with plain minimax only when no record cached by a DEEPER search was reused (from depth 4 on a
       -- position can be met again closer to the root than where it was first stored); such cases are tied to the model, not judged
-      let sp := if reused > 0 then "?" else match Spec.V G 2000 d b with
+      let sp := if reused > 0 then "?" else match specVb G d b with
         | some v =>
           let attains := match implMv with
             | some mv => (G.moves b).contains mv &&
-                (match Spec.V G 2000 (d - 1) (G.play b mv) with
+                (match specVb G (d - 1) (G.play b mv) with
                  | some c => scoreClass (-c) == scoreClass v
                  | none => false)
             | none => (G.moves b).isEmpty
@@ -441,7 +448,7 @@ def step (st : St) (line : String) : St × String :=
       let G := chessGame st.mg (zkeysOf st.skeys)
       let m := match quiesce G 100000 b Gen.NEGATIVE_INFINITY Gen.INFINITY {} with
         | (some v, _) => toString v | (none, _) => "?"
-      let sp := match Spec.Q G 2000 b with
+      let sp := match specQb G b with
         | some v => toString (if v ≥ Gen.INFINITY then Gen.INFINITY else if v ≤ Gen.NEGATIVE_INFINITY then
             (if v = -Gen.CHECKMATE_SCORE then v else Gen.NEGATIVE_INFINITY) else v)
         | none => "?"
@@ -562,7 +569,7 @@ def step (st : St) (line : String) : St × String :=
           let cnt := (st.specHist.filter (· == posText q 0 0)).length
           if cnt ≥ 2 then some 0
           else match (b.makeMove m) with
-            | some b' => (Spec.Q G 3000 b').map (fun v => -v)
+            | some b' => (specQb G b').map (fun v => -v)
             | none => none
         if vals.any (·.isNone) then (st, both "ok" "?")
         else
